@@ -33,6 +33,9 @@ var solvers = []solverDef{
 	{"cvc5-1.0.3", "cvc5", func(t int) []string {
 		return []string{"--lang=smt2", fmt.Sprintf("--tlimit=%d", t*1000), "--produce-models"}
 	}},
+	// same solver, model-based quantifier instantiation only (decides some quantified
+	// invariant steps on which E-matching diverges)
+	{"z3-5.1.0/mbqi", "z3-new", func(t int) []string { return []string{"-in", fmt.Sprintf("-T:%d", t), "smt.ematching=false"} }},
 }
 
 func (o *Obligation) scriptText(withModel bool) string {
@@ -161,10 +164,10 @@ func solveAll(obls []*Obligation, tier string, par int, dumpDir string) map[*Obl
 			release(1)
 			if res.Status != "unsat" && res.Status != "sat" {
 				raceMu.Lock()
-				acquire(3)
+				acquire(len(solvers))
 				raceMu.Unlock()
 				r2 := race(script, slowT, solvers)
-				release(3)
+				release(len(solvers))
 				if r2.Status == "unsat" || r2.Status == "sat" || res.Status == "error" {
 					r2.Seconds += res.Seconds
 					res = r2
@@ -175,7 +178,7 @@ func solveAll(obls []*Obligation, tier string, par int, dumpDir string) map[*Obl
 				res.Agree = []string{res.Solver}
 				acquire(1)
 				for _, sd := range solvers {
-					if sd.name == res.Solver {
+					if sd.name == res.Solver || strings.Split(sd.name, "/")[0] == strings.Split(res.Solver, "/")[0] {
 						continue
 					}
 					r2 := runSolver(sd, script, slowT)
